@@ -802,10 +802,85 @@ func (w *World) emitSites() []emitSite {
 					}
 				}
 			}
+			if es.Ops == nil {
+				es.Ops = opcodeValuesOf(w, p, fd, es.OpExpr)
+			}
 			out = append(out, es)
 			return true
 		})
 	})
+	return out
+}
+
+// opcodeValuesOf: e is a local variable every assignment of which is an opcode
+// constant (`op := OpOrJump; if and { op = OpAndJump }`): the constants.
+func opcodeValuesOf(w *World, p pkgT, fd *ast.FuncDecl, e ast.Expr) []string {
+	id, ok := ast.Unparen(e).(*ast.Ident)
+	if !ok {
+		return nil
+	}
+	obj, ok := p.TypesInfo.ObjectOf(id).(*types.Var)
+	if !ok || obj.IsField() {
+		return nil
+	}
+	if _, isParam := paramIndex(p, fd, obj); isParam {
+		return nil
+	}
+	oi := w.opcodes()
+	set := map[string]bool{}
+	good := true
+	n := 0
+	ast.Inspect(fd.Body, func(nd ast.Node) bool {
+		switch x := nd.(type) {
+		case *ast.AssignStmt:
+			for i, l := range x.Lhs {
+				lid, ok := l.(*ast.Ident)
+				if !ok || p.TypesInfo.ObjectOf(lid) != types.Object(obj) {
+					continue
+				}
+				n++
+				if len(x.Lhs) != len(x.Rhs) {
+					good = false
+					continue
+				}
+				co := ConstObj(p, x.Rhs[i])
+				if co == nil {
+					good = false
+					continue
+				}
+				if _, isOp := oi.Val[co.Name()]; !isOp {
+					good = false
+					continue
+				}
+				set[co.Name()] = true
+			}
+		case *ast.ValueSpec:
+			for i, nm := range x.Names {
+				if p.TypesInfo.Defs[nm] == types.Object(obj) {
+					n++
+					if i < len(x.Values) {
+						if co := ConstObj(p, x.Values[i]); co != nil {
+							if _, isOp := oi.Val[co.Name()]; isOp {
+								set[co.Name()] = true
+								continue
+							}
+						}
+					}
+					good = false
+				}
+			}
+		}
+		return true
+	})
+	if !good || n == 0 || len(set) == 0 {
+		return nil
+	}
+	var out []string
+	for _, name := range oi.Names {
+		if set[name] {
+			out = append(out, name)
+		}
+	}
 	return out
 }
 
